@@ -7,4 +7,5 @@ var All = map[string]func(tier string) int{
 	"C02": C02,
 	"C05": C05,
 	"C06": C06,
+	"C07": C07,
 }
